@@ -59,6 +59,9 @@ class ULPIHost:
         self.fs_pacing = fs_pacing          # extra NXT-low cycles per device byte (a real FS PHY takes ~40 clocks/byte)
         self.phy = ULPIPhy(max_stall=max(max_stall, fs_pacing) + 1)
         self.phy.last_cmd = VBUS_VALID | LS_J
+        self.vbus = VBUS_VALID              # RxCmd VBUS bits currently reported by the PHY
+        self.hs = False                     # high-speed line-state coding: 00 = squelch (idle), 01 = activity
+        self.chirps = []                    # NOPID transmissions (device chirp) seen, with their length in clocks
         self.log = []
         self.cycle_no = 0
         self.last_rx_end = None
@@ -125,7 +128,7 @@ class ULPIHost:
                 self._pulse.pop(0)
             else:
                 if d:
-                    rx, b = "cmd", VBUS_VALID | step[1]
+                    rx, b = "cmd", step[1]
                     self._pulse.pop(0)
                 elif d == 0 and phy.dir == 0:
                     self._pulse = None
@@ -170,6 +173,14 @@ class ULPIHost:
     def _finish(self, t, val):
         p = self._pkt
         self._pkt = None
+        if p["cmd"] == 0x40:                # NOPID: a chirp (no bit stuffing / NRZI), not a packet
+            ev = {"e": "chirp", "start": p["start"], "end": self.cycle_no, "n": len(p["bytes"]),
+                  "nonzero": sum(1 for x in p["bytes"] if x), "stp_data": val}
+            self.chirps.append(ev)
+            self.log.append(ev)
+            self._present_t = None
+            self._blk = 0
+            return
         wire = [utmi.pid_byte(p["cmd"] & 0xF)] + p["bytes"]
         ev = {"e": "dev", "start": p["start"], "end": self.cycle_no, "cmd": p["cmd"], "bytes": p["bytes"],
               "stp_lag": t - p["last_t"], "stp_data": val, "gap": p["gap"], "blk": p["blk"],
@@ -181,6 +192,16 @@ class ULPIHost:
         self.last_rx_end = None
         self.device_packets.append(ev)
         self.log.append(ev)
+
+    async def line(self, ctx, low, hold=0, limit=20000):
+        """Bus event at line-state level: the PHY reports line state `low` (with the current VBUS bits) in a lone RxCmd as
+        soon as it may claim the bus (not inside a transmit data phase, e.g. the device's chirp), then `hold` clocks pass."""
+        self.rxcmd_at[self.cycle_no] = self.vbus | low
+        for _ in range(limit):
+            await self.cycle(ctx)
+            if not self.rxcmd_at and not self._pulse:
+                break
+        await self.idle(ctx, hold)
 
     async def idle(self, ctx, n=1):
         for _ in range(n):
@@ -214,7 +235,8 @@ class ULPIHost:
             await self.cycle(ctx)
         self.rxcmd_at.clear()                              # a line-state update still pending is overtaken by this packet
         start = pat.get("start", "cmd")
-        act = VBUS_VALID | 0x10 | LS_K
+        act = self.vbus | 0x10 | (LS_J if self.hs else LS_K)
+        idle_ls = LS_SE0 if self.hs else LS_J
         if phy.dir == 0:
             for _ in range(4000):                          # the PHY refuses DIR inside a transmit data phase: retry
                 await self.cycle(ctx, "up_nxt" if start == "nxt" else "up")
@@ -225,7 +247,7 @@ class ULPIHost:
             else:
                 if start == "hold":
                     for _ in range(pat.get("pre", 1)):
-                        await self.cycle(ctx, "cmd", VBUS_VALID | LS_J)
+                        await self.cycle(ctx, "cmd", self.vbus | idle_ls)
                 await self.cycle(ctx, "cmd", act)
         else:
             await self.cycle(ctx, "cmd", act)
@@ -236,27 +258,27 @@ class ULPIHost:
             for _ in range(g):
                 await self.cycle(ctx, "gap")               # DIR high, no NXT: the PHY repeats its RxCmd
             for low in pat.get("cmds", {}).get(i, ()):
-                await self.cycle(ctx, "cmd", VBUS_VALID | 0x10 | low)
+                await self.cycle(ctx, "cmd", self.vbus | 0x10 | (LS_J if self.hs else low))
             await self.cycle(ctx, "data", byte)
         end = pat.get("end", "cmd")
         if end == "cmd":
-            await self.cycle(ctx, "cmd", VBUS_VALID | LS_SE0)
+            await self.cycle(ctx, "cmd", self.vbus | LS_SE0)
             self.last_rx_end = self.cycle_no            # the cycle in which the RxCmd with RxActive = 0 stands on the bus
             self._present_t, self._blk = None, 0
             tail = pat.get("tail", 0)
             for k in range(tail):
-                await self.cycle(ctx, "cmd", VBUS_VALID | (LS_J if k == tail - 1 else LS_SE0))
+                await self.cycle(ctx, "cmd", self.vbus | (idle_ls if k == tail - 1 else LS_SE0))
             await self.cycle(ctx, "down")
-            if tail == 0:                                  # the line returns to J: a real PHY reports it (else: SE0 = bus reset)
-                self.rxcmd_at[self.cycle_no + 1 + pat.get("post", 0)] = LS_J
+            if tail == 0 and not self.hs:                  # the line returns to J: a real PHY reports it (else: SE0 = bus reset)
+                self.rxcmd_at[self.cycle_no + 1 + pat.get("post", 0)] = self.vbus | LS_J
         else:
             await self.cycle(ctx, "down")
             self.last_rx_end = self.cycle_no            # the cycle in which DIR is low again
             self._present_t, self._blk = None, 0
-            if end == "dir_j":
-                self.rxcmd_at[self.cycle_no + 1 + pat.get("post", 0)] = LS_J
+            if end == "dir_j" or self.hs:                  # (at high speed the line is back to squelch: always reported)
+                self.rxcmd_at[self.cycle_no + 1 + pat.get("post", 0)] = self.vbus | idle_ls
         if pulse is not None:
-            self.rxcmd_at[self.last_rx_end + pulse] = LS_J
+            self.rxcmd_at[self.last_rx_end + pulse] = self.vbus | idle_ls
         await self.cycle(ctx)
 
     async def token(self, ctx, pid, addr, ep, corrupt_crc=False):
@@ -328,5 +350,5 @@ async def settle(ctx, host, dev_connect, cycles=400):
     """Power-on: connect, announce VBUS valid / line state J by an RxCmd, let the control translator finish its
     register writes (Function Control / OTG Control) before traffic starts."""
     ctx.set(dev_connect, 1)
-    host.rxcmd_at[host.cycle_no + 2] = LS_J
+    host.rxcmd_at[host.cycle_no + 2] = host.vbus | LS_J
     await host.idle(ctx, cycles)
